@@ -73,7 +73,7 @@ def build_all(report):
         if rc != 0:
             failures["translator"] = (out + err)[-4000:]
         # 2. harness generators
-        for name, kinds in (("Reg4", "szlh"), ("Reg10", "szlhshzslh")):
+        for name, kinds in (("Reg4", "szlh"), ("Reg10", "szlhshzslh"), ("Reg8", "szlhshzs")):
             rc, out, err = run([sys.executable, os.path.join(HARNESS, "gen", "gen_family.py"), name, kinds, "shz",
                                 os.path.join(WORK, "gen_%s.rs" % name.lower())])
             if rc != 0:
